@@ -1,5 +1,8 @@
 import Deb822Verif.Model.DebLossy
 import Deb822Verif.Model.DebAccess
+import Deb822Verif.Lemmas.DebLexLines
+import Deb822Verif.Lemmas.DebLossyDoc
+import Deb822Verif.Props.C03
 /-!
 # C06 — lossy and lossless deb822 readers agree on content
 -/
@@ -27,5 +30,120 @@ theorem C06_lex_kinds (st : LexState) (s : Str) : ∀ t ∈ lexAux st s, isToken
     rcases ht with rfl | ht
     · exact lexStep_kind st c rest
     · exact ih t ht
+
+end Deb822Verif.Props.C06
+
+namespace Deb822Verif.Props.C06
+open Deb822Verif Deb Spec Node
+
+/-! ### joint acceptance of well-formed documents, with the same content -/
+
+theorem splitOn_line (l rest : Str) (h : '\n' ∉ l) :
+    Text.splitOn '\n' (l ++ '\n' :: rest) = l :: Text.splitOn '\n' rest := by
+  induction l with
+  | nil => simp [Text.splitOn]
+  | cons c cs ih =>
+    have hc : c ≠ '\n' := by intro e; apply h; simp [e]
+    have hcs : '\n' ∉ cs := by intro e; apply h; simp [e]
+    simp [Text.splitOn, hc, ih hcs]
+
+theorem splitOn_single (l : Str) (h : '\n' ∉ l) : Text.splitOn '\n' l = [l] := by
+  induction l with
+  | nil => simp [Text.splitOn]
+  | cons c cs ih =>
+    have hc : c ≠ '\n' := by intro e; apply h; simp [e]
+    have hcs : '\n' ∉ cs := by intro e; apply h; simp [e]
+    simp [Text.splitOn, hc, ih hcs]
+
+theorem splitOn_join (ls : List Str) (hne : ls ≠ []) (h : ∀ l ∈ ls, '\n' ∉ l) :
+    Text.splitOn '\n' (Text.join ['\n'] ls) = ls := by
+  induction ls with
+  | nil => exact absurd rfl hne
+  | cons a ls ih =>
+    cases ls with
+    | nil => simpa [Text.join] using splitOn_single a (h a (by simp))
+    | cons b ls =>
+      have := ih (by simp) (fun l hl => h l (by simp [hl]))
+      simp only [Text.join, List.append_assoc, List.cons_append, List.nil_append]
+      rw [splitOn_line a _ (h a (by simp)), this]
+
+/-- the non-blank lines of lines joined by "\n" are the non-empty ones among them -/
+theorem nb_join (ls : List Str) (h : ∀ l ∈ ls, '\n' ∉ l) :
+    nb (Text.join ['\n'] ls) = ls.filter (· ≠ []) := by
+  cases ls with
+  | nil => simp [nb, Text.join, Text.splitOn]
+  | cons a ls => simp only [nb]; rw [splitOn_join _ (by simp) h]
+
+theorem noNl_noLF {s : Str} (h : NoNl s) : '\n' ∉ s := by
+  intro hm; have := h '\n' hm; simp [isNewline] at this
+
+theorem entry_lines_noLF (e : EntryS) (h : e.WF) : ∀ l ∈ e.v :: e.conts.map ContS.text, '\n' ∉ l := by
+  intro l hl
+  simp only [List.mem_cons, List.mem_map] at hl
+  rcases hl with rfl | ⟨c, hc, rfl⟩
+  · exact noNl_noLF h.v_ok.1
+  · exact noNl_noLF (h.conts_ok c hc).text_ok.1
+
+/-- per field: lossy value and lossless value have the same non-blank lines -/
+theorem nb_entry (e : EntryS) (h : e.WF) : nb (lossyValue e) = nb e.content.2 := by
+  have h1 := nb_join (e.v :: e.conts.map ContS.text) (entry_lines_noLF e h)
+  have h2 := nb_join e.valueLines (by
+    intro l hl
+    apply entry_lines_noLF e h l
+    simp only [EntryS.valueLines, List.mem_append, List.mem_map] at hl
+    rcases hl with hl | hl
+    · split at hl <;> simp_all
+    · simp only [List.mem_cons, List.mem_map]; right; exact hl)
+  simp only [lossyValue, EntryS.content] at *
+  rw [h1, h2]
+  have hc : ∀ c ∈ e.conts, c.text ≠ [] := by
+    intro c hc; obtain ⟨_, x, xs, hx, _⟩ := (h.conts_ok c hc).text_ok; rw [hx]; simp
+  have : (e.conts.map ContS.text).filter (· ≠ []) = e.conts.map ContS.text := by
+    apply List.filter_eq_self.2
+    intro l hl; simp only [List.mem_map] at hl; obtain ⟨c, hc', rfl⟩ := hl
+    simpa using hc c hc'
+  simp only [EntryS.valueLines, List.filter_cons, List.filter_append, this]
+  by_cases hv : e.v = [] <;> simp [hv]
+
+/-- a field as (name, non-blank value lines) -/
+def nbField (f : Str × Str) : Str × List Str := (f.1, nb f.2)
+
+theorem nb_items (is : List PItem) (h : ∀ i ∈ is, i.WF) :
+    (lossyItems is).map nbField = ((is.map PItem.content).flatten).map nbField := by
+  induction is with
+  | nil => rfl
+  | cons i is ih =>
+    have := ih (fun x hx => h x (by simp [hx]))
+    cases i with
+    | comment t nl => simpa [lossyItems, itemEntries, PItem.content] using this
+    | entry e =>
+      have he : e.WF := h (.entry e) (by simp)
+      simp only [lossyItems, itemEntries, List.map_cons, PItem.content, List.flatten_cons,
+        List.cons_append, List.nil_append] at this ⊢
+      rw [this]
+      simp [nbField, lossyEntry, nb_entry e he, EntryS.content]
+
+/-- **C06, clause 2**: both readers accept every well-formed document (in the sense of C03), and
+    report the same paragraphs, the same field names in the same order and, for every field, the
+    same sequence of non-blank value lines -/
+theorem C06_joint_accept (d : DocS) (h : d.WF) :
+    Lossy.read d.str = .ok (lossyDoc d) ∧ readStrict d.str = .ok d.tree ∧
+    (lossyDoc d).map (·.map nbField) = (docItems d.tree).map (·.map nbField) := by
+  refine ⟨?_, ?_, ?_⟩
+  · unfold Lossy.read; rw [lex_doc d h]; exact lossy_doc d h
+  · simp [readStrict, parse, lex_doc d h, parse_doc d h]
+  · rw [docItems_tree]
+    simp only [lossyDoc, DocS.content, List.map_map]
+    apply List.map_congr_left
+    intro pg hpg
+    have hp := (h.paras_ok pg hpg).1
+    simp only [Function.comp, lossyPara, ParaS.content, List.map_cons]
+    rw [nb_items pg.1.rest hp.rest_ok]
+    simp [nbField, lossyEntry, nb_entry pg.1.first hp.first_ok, EntryS.content]
+
+/-- non-vacuity: the concrete document of Props/C03 (comments everywhere, duplicate names, an
+    empty first line, a ':' continuation, no final newline) is in the domain -/
+example : Lossy.read Props.C03.exDoc.str = .ok (lossyDoc Props.C03.exDoc) :=
+  (C06_joint_accept _ (by decide)).1
 
 end Deb822Verif.Props.C06
